@@ -408,7 +408,7 @@ Qed.
 Theorem lstep_linv s l : linv s -> api_ok sz s l = true ->
   exists s' o, lstep sz s l = Ok (s', o) /\ linv s'.
 Proof.
-  intros [Is Im Ic Ia] Hapi. destruct l as [w| |k|k| |k|k|v|mi]; cbn [lstep api_ok] in *; [| | | | | | | |discriminate].
+  intros [Is Im Ic Ia] Hapi. destruct l as [w| |k|k| |k|k|v| |mi]; cbn [lstep api_ok] in *; [| | | | | | | | |discriminate].
   - (* World *)
     eexists _, _. split; [reflexivity|]. split; cbn [l_sender l_mgr l_chan l_accepted sd_hist]; try assumption.
     split; cbn [sd_hist sd_store]; apply Is.
@@ -451,6 +451,11 @@ Proof.
     eexists _, _. split; [reflexivity|]. split; assumption.
   - (* ForgeAck *)
     eexists _, _. split; [reflexivity|]. split; assumption.
+  - (* ResetMgr *)
+    eexists _, _. split; [reflexivity|]. split; cbn [l_sender l_mgr l_chan l_accepted]; try assumption.
+    destruct Im as [[Hwf _] _]. split; cbn [manager_reset m_recv m_store storage_reset st_snaps].
+    + apply rinv_idle; reflexivity.
+    + intros t X [].
 Qed.
 
 (* what a Deliver can answer in a state of the invariant *)
